@@ -25,6 +25,7 @@
   actually used) and the conditions on the layout strings.
 -/
 import XotModel.Lemmas.LexCanon
+import XotModel.Lemmas.LexReadAs
 
 namespace XotModel
 
